@@ -263,7 +263,11 @@ class OdeModel:
                 _, callee = _pkg.resolve("TemplateLoader", f_.attr)
                 if callee is not None and callee is not self.func:
                     return _fold(callee), f_.value
+            # ... and so is a block extracted into a plain FUNCTION of the module that is handed the lists (`_add_thermal(y, flag)`)
+            if isinstance(f_, ast.Name) and f_.id not in _ANCHORS and (FILE, f_.id) in _pkg.functions and f_.id not in _local_names:
+                return _fold(_pkg.functions[(FILE, f_.id)]), None
             return None
+        _local_names = {n.id for n in ast.walk(self.func) if isinstance(n, ast.Name) and isinstance(n.ctx, ast.Store)} | {a.arg for a in self.func.args.args}
         func = inline_constants(_copy.deepcopy(self.func), pkg, "TemplateLoader")
         # a generator method that hands records to a consuming loop (`for rec in self._iter_terms(..): rhs[rec.row] += ..`) is put
         # back in place, and a namedtuple / dataclass that only carries the values across is replaced by its fields
